@@ -1,6 +1,6 @@
 """C06 -- a confirmed double spend cancels the losing unconfirmed transaction."""
 from . import txpipeline as tp
-FORMULAS = {'CancelOnConfirm', 'CancImpliesUnsafe', 'BlockDelivers', 'NoError', 'NoPanic', 'ProofValid'}
+FORMULAS = {'CancelOnConfirm', 'CancelWarranted', 'CancImpliesUnsafe', 'BlockDelivers', 'NoError', 'NoPanic', 'ProofValid'}
 def main(argv):
     tp.standard('C06', FORMULAS,
                 'scripts = TLC simulation behaviours of TxPipeline in which blocks confirm transactions that conflict with zero, one or two delivered '
